@@ -7,7 +7,7 @@
                     countAlterCommandChildren, explainProjection / explainProjectionSelectQuery,
                     explainStatisticsCommand / explainStatisticsTypeFunction.
 
-   DEFINITIONS ONLY.  Hand-written transcription of /repo revision 56672b6cf, in the style of
+   DEFINITIONS ONLY.  Hand-written transcription of /repo revision 472349192, in the style of
    Select/SelectExplainModel.v: the "(children N)" header is computed by the [count_*] functions,
    the children are emitted by separate code, exactly as in Go: same order of emission, same
    conditions, same derived locals (hasDatabase, hasColumnPrimaryKey, settingsInStorage,
@@ -460,12 +460,13 @@ Definition comment_if (d : nat) (s : list N) : list line :=
 Definition ident_list (d : nat) (names : list (list N)) : list line :=
   hdr d L_ExpressionList (List.length names) :: map (fun n => leaf (S d) (L_Identifier n)) names.
 
-(* explainStatisticsTypeFunction(sb, fn, indent(d), d): the arguments are printed by
-   Node(sb, arg, depth+1), i.e. at the depth of the ExpressionList line, NOT beneath it *)
+(* explainStatisticsTypeFunction(sb, fn, indent(d), d): always "(children 1)", the empty
+   ExpressionList printed as a leaf; the arguments by Node(sb, arg, depth+2), beneath the
+   ExpressionList (/repo 472349192; before that commit they were printed at depth+1, beside it) *)
 Definition explain_statistics_type_function (d : nat) (f : fn_call) : list line :=
   hdr d (L_Function (fn_name f)) 1
   :: (if nonempty (fn_args f)
-      then hdr (S d) L_ExpressionList (List.length (fn_args f)) :: nodes (S d) (fn_args f)
+      then hdr (S d) L_ExpressionList (List.length (fn_args f)) :: nodes (S (S d)) (fn_args f)
       else [leaf (S d) L_ExpressionList]).
 
 (* explainStatisticsCommand(sb, cmd, indent(d), d); [d] = depth of the AlterCommand line *)
